@@ -22,6 +22,7 @@ package sql
 import (
 	"database/sql"
 	"fmt"
+	"io"
 	"strconv"
 	"strings"
 	"testing"
@@ -212,20 +213,27 @@ func c14LitBytes(n *c14Node) (int64, bool) {
 	if n.kind != "L" || n.name != "number" {
 		return 0, false
 	}
-	v := int64(0)
-	if d, err := strconv.Atoi(n.val); err == nil {
-		v = int64(d)
-	} else if h, err := strconv.ParseInt(n.val, 0, 64); err == nil {
-		v = h
-	} else if f, err := strconv.ParseFloat(n.val, 64); err == nil && f < 1e9 {
-		v = int64(f)
+	// the value SQLite gives the literal, and its limit on blob lengths; a larger request is
+	// rejected by SQLite on every node alike ("string or blob too big") and need not be pinned
+	const sqliteMaxLength = 1000000000
+	var v float64
+	if d, err := strconv.ParseUint(n.val, 10, 64); err == nil {
+		v = float64(d)
+	} else if h, err := strconv.ParseUint(n.val, 0, 64); err == nil && strings.HasPrefix(strings.ToLower(n.val), "0x") {
+		v = float64(h)
+	} else if f, err := strconv.ParseFloat(n.val, 64); err == nil && !strings.HasPrefix(strings.ToLower(n.val), "0x") {
+		v = f
 	} else {
 		return 0, false
 	}
-	if v < 1 {
-		v = 1
+	if v > sqliteMaxLength {
+		return 0, false
 	}
-	return v, true
+	b := int64(v)
+	if b < 1 {
+		b = 1
+	}
+	return b, true
 }
 
 // c14Nondet lists the calls of the tree that the property says must not be replicated:
@@ -492,7 +500,8 @@ func (g *c14Gen) randCall() string {
 		}
 		return g.callHead("random") + ")"
 	}
-	arg := g.r.Pick([]string{"16", "4", "1", "0", "007", "0x10", "0X0a", "2.0", "1e1", "-1", "(4)", "2+2", "n"})
+	arg := g.r.Pick([]string{"16", "4", "1", "0", "007", "0x10", "0X0a", "2.0", "1e1", "-1", "(4)", "2+2", "n",
+		"99999999999", "1000000001", "0x7fffffffffff", "1e10", "99999999999999999999", "0xffffffffffffffffff", "3000000000.5", "-5", "1e999"})
 	if g.closed && arg == "n" {
 		arg = "3"
 	}
@@ -954,12 +963,20 @@ func TestVerifC14(t *testing.T) {
 		case 2:
 			text = "INSERT INTO t(a) VALUES(1); INSERT INTO t(a) VALUES(2);"
 		}
-		orig, err := rsql.NewParser(strings.NewReader(text)).ParseStatements()
-		if err != nil || len(orig) < 2 {
+		if i%9 == 4 {
+			text += r.Pick([]string{";", ";;", " ; ; ", ";\n-- done\n"}) // empty / comment-only statements
+		} else if i%9 == 5 {
+			text = strings.Replace(text, ";", "; ;", 1)
+		}
+		origTexts, orig, ok := c14ParseAll(text)
+		if !ok || len(orig) < 2 {
 			rep.Count("multi:parser-rejects")
 			continue
 		}
 		rep.Count("multi-statement-text")
+		if len(origTexts) != len(strings.Split(text, ";")) {
+			rep.Count("multi-statement-text:with-empty-statements")
+		}
 		st := []*proto.Statement{{Sql: text}}
 		replay := map[string]interface{}{"sql": text}
 		if err := Process(st, true, true); err != nil {
@@ -967,9 +984,9 @@ func TestVerifC14(t *testing.T) {
 			continue
 		}
 		replay["replicated"] = st[0].Sql
-		out, err := rsql.NewParser(strings.NewReader(st[0].Sql)).ParseStatements()
-		if err != nil {
-			rep.Fail("multi-statement-text:output-unparsable", fmt.Sprintf("%q -> %q: %v", text, st[0].Sql, err), replay)
+		outTexts, out, ok := c14ParseAll(st[0].Sql)
+		if !ok {
+			rep.Fail("multi-statement-text:output-unparsable", fmt.Sprintf("%q -> %q", text, st[0].Sql), replay)
 			continue
 		}
 		if len(out) != len(orig) {
@@ -984,6 +1001,8 @@ func TestVerifC14(t *testing.T) {
 			at, _ := c14Record(out[k])
 			if c14HasTargetCall(bt) {
 				anyTarget = true
+			} else if outTexts[k] != origTexts[k] {
+				rep.Fail("multi-statement-text:untouched-statement-reprinted", fmt.Sprintf("statement %d of %q needs no rewriting but is replicated as %q", k, text, outTexts[k]), replay)
 			}
 			var ndB []string
 			c14Nondet(bt, false, true, true, &ndB)
@@ -997,8 +1016,10 @@ func TestVerifC14(t *testing.T) {
 		if !anyTarget && st[0].Sql != text {
 			rep.Fail("multi-statement-text:changed-without-calls", fmt.Sprintf("%q -> %q", text, st[0].Sql), replay)
 		}
-		if st[0].ForceQuery {
-			rep.Fail("multi-statement-text:force-query", fmt.Sprintf("%q is marked ForceQuery: a query runs only the last statement of a text", text), replay)
+		// the query / explain markers are those of the first statement, as for a single statement
+		first := []*proto.Statement{{Sql: origTexts[0]}}
+		if err := Process(first, true, true); err == nil && (first[0].ForceQuery != st[0].ForceQuery || first[0].SqlExplain != st[0].SqlExplain) {
+			rep.Fail("multi-statement-text:markers", fmt.Sprintf("%q: ForceQuery=%v SqlExplain=%v, its first statement alone gets %v %v", text, st[0].ForceQuery, st[0].SqlExplain, first[0].ForceQuery, first[0].SqlExplain), replay)
 		}
 	}
 
@@ -1027,7 +1048,10 @@ func TestVerifC14(t *testing.T) {
 			}
 			ok = orig == rewr
 			if !ok {
+				// the pinned literal has a precision of 1e-6 day (±43 ms) and the original reads its
+				// own clock a moment later: near a second boundary the two may differ - move away from it
 				rep.Count("meaning:retry")
+				time.Sleep(170 * time.Millisecond)
 			}
 		}
 		rep.Count("meaning:original-vs-rewritten")
@@ -1047,6 +1071,19 @@ func TestVerifC14(t *testing.T) {
 			rep.Fail("randomblob-length", fmt.Sprintf("%q is %s on SQLite but was replicated as %q = %s", text, o, st[0].Sql, w), map[string]interface{}{"sql": text})
 		}
 	}
+	// a literal beyond SQLite's blob limit is left alone - and SQLite rejects it, identically everywhere
+	for _, arg := range []string{"99999999999", "1000000001", "0x7fffffffffff", "1e10", "99999999999999999999", "3000000000.5"} {
+		text := "SELECT length(randomblob(" + arg + "))"
+		st := []*proto.Statement{{Sql: text}}
+		if err := Process(st, true, true); err != nil {
+			rep.Fail("randomblob-huge-literal", fmt.Sprintf("Process(%q): %v", text, err), nil)
+			continue
+		}
+		rep.Count("meaning:randomblob-beyond-sqlite-limit")
+		if st[0].Sql != text || c14Eval(mem, text) != "ERROR" {
+			rep.Fail("randomblob-huge-literal", fmt.Sprintf("%q replicated as %.80q; SQLite evaluates the original to %s (expected: left alone, rejected by SQLite)", text, st[0].Sql, c14Eval(mem, text)), map[string]interface{}{"sql": text})
+		}
+	}
 	// meaning B: rewritten closed statements do not depend on the time of evaluation
 	if len(determinism) > 0 {
 		time.Sleep(1100 * time.Millisecond)
@@ -1057,6 +1094,44 @@ func TestVerifC14(t *testing.T) {
 			}
 		}
 	}
+}
+
+// c14ParseAll splits a text at its top-level semicolons (scanner tokens, so not inside strings,
+// identifiers or comments), drops empty and comment-only statements and parses the others.
+func c14ParseAll(text string) ([]string, []rsql.Statement, bool) {
+	runes := []rune(text)
+	var segs []string
+	start := 0
+	sc := rsql.NewScanner(strings.NewReader(text))
+	for {
+		pos, tok, _ := sc.Scan()
+		if tok == rsql.EOF {
+			break
+		}
+		if tok == rsql.SEMI {
+			segs = append(segs, string(runes[start:pos.Offset]))
+			start = pos.Offset + 1
+		}
+	}
+	segs = append(segs, string(runes[start:]))
+	var texts []string
+	var stmts []rsql.Statement
+	for _, sg := range segs {
+		sg = strings.TrimSpace(sg)
+		if sg == "" {
+			continue
+		}
+		p, err := rsql.NewParser(strings.NewReader(sg)).ParseStatement()
+		if err == io.EOF {
+			continue
+		}
+		if err != nil {
+			return nil, nil, false
+		}
+		texts = append(texts, sg)
+		stmts = append(stmts, p)
+	}
+	return texts, stmts, true
 }
 
 func c13BitC14(b bool) string {
